@@ -249,8 +249,33 @@ def too_long(fn, n):
     return "accepted", [(f"more_than_64_items_accepted|{fn}", f"n={n}")]
 
 
-def static_checks(acc):
+def reuse_checks():
+    """The caller's list is input, not scratch space: the same list object given to a helper twice (and to the
+    other helpers in between) is left as it was and gives the same message each time."""
+    import copy
     out = []
+    ks = [DB[i] for i in sorted(reps_by_type().values())[:5]]
+    data = [(n if j % 2 else k, (boundary_values(t, False) or [L.nominal(t)])[-1]) for j, (n, (k, t)) in enumerate(ks)]
+    keys = [n if j % 2 else k for j, (n, (k, t)) in enumerate(ks)]
+    for fn, arg, call in (("set", data, lambda a: UBXMessage.config_set(1, 0, a)), ("del", keys, lambda a: UBXMessage.config_del(1, 0, a)), ("poll", keys, lambda a: UBXMessage.config_poll(0, 0, a))):
+        for form in (list, tuple):
+            mine = form(copy.deepcopy(arg))
+            before = copy.deepcopy(mine)
+            try:
+                first = call(mine).serialize()
+                again = call(mine).serialize()
+            except Exception as e:  # noqa: BLE001
+                out.append((f"config_{fn}_refuses_the_list_it_accepted_before|{form.__name__}|{type(e).__name__}", str(e)))
+                continue
+            if mine != before:
+                out.append((f"config_{fn}_modifies_callers_list|{form.__name__}", f"{mine!r:.120}"))
+            if first != again:
+                out.append((f"config_{fn}_second_call_differs|{form.__name__}", f"{first.hex()[:60]} {again.hex()[:60]}"))
+    return out
+
+
+def static_checks(acc):
+    out = reuse_checks()
     for name, (kid, t) in DB:
         acc.transitions += 1
         try:
@@ -596,7 +621,7 @@ def run_tier(tier, t0):
             "all ordered pairs" + (" and a third of the triples" if q else " and triples") + " over one key per type; layers 0..255 x transaction; position boundary values; unknown IDs for size codes 1..5 in each position of a 3-list, and every documented key's group/item under each other size code; "
             "produced payloads compared with the reference codec and re-parsed as CFG-VALSET and as CFG-VALGET response. states = keys covered; distinct_nontrivial = (type, addressing, verdict) classes"
         ),
-        assumptions=["storage widths by size code {1:1,2:1,3:2,4:4,5:8}; undocumented IDs with bit 31 clear (O8); aliases resolve to the first database name (O7)", "out-of-range values may be refused by any exception (the helpers are static, outside the constructor's translation)", "lists naming a key more than once are covered (one item per entry, in order)", "thread ring: all 10 unordered pairs of 4 helper calls (config_set x2, config_del, config_poll) as two real threads under the cooperative line-event scheduler, every schedule with <= 1 preemption; each call must return what it returns alone"],
+        assumptions=["storage widths by size code {1:1,2:1,3:2,4:4,5:8}; undocumented IDs with bit 31 clear (O8); aliases resolve to the first database name (O7)", "out-of-range values may be refused by any exception (the helpers are static, outside the constructor's translation)", "lists naming a key more than once are covered (one item per entry, in order)", "the same list / tuple object given to each helper twice: accepted both times, left unmodified, same message", "thread ring: all 10 unordered pairs of 4 helper calls (config_set x2, config_del, config_poll) as two real threads under the cooperative line-event scheduler, every schedule with <= 1 preemption; each call must return what it returns alone"],
         vacuity=[(f"all {len(DB)} keys covered", len(acc.states) == len(DB)), ("refusals of bad values observed", any(k[1] == "bad" and k[2] == "refused" for k in acc.outcomes))],
         extra_cov={"keys": len(DB), "unknown_ids": len(unknown_ids())},
     )
